@@ -417,7 +417,10 @@ pub fn generate(rng: &mut Rng, opts: &GenOpts, tag: &str) -> Value {
         let mut t = window_start + rng.range(0, window_len / grid) * grid;
         if tight && !placed.is_empty() && rng.chance(1, 2) {
             let total: i64 = route.segs.iter().map(|x| x.dur).sum::<i64>() + (route.segs.len() as i64 - 1) * shunt_min;
-            let &(a_start, a_end, a_from, a_to) = rng.pick(&placed);
+            // the maintenance slots come first in `placed`: every third tight placement refers
+            // to one of them (connections from / to a slot have rules of their own)
+            let n_slots_placed = slots.len().min(placed.len());
+            let &(a_start, a_end, a_from, a_to) = if n_slots_placed > 0 && rng.chance(1, 3) { &placed[rng.usize(0, n_slots_placed - 1)] } else { rng.pick(&placed) };
             let offsets_same: Vec<i64> = if ties { vec![0, shunt_min] } else { vec![0, shunt_min, (shunt_min - 60).max(0), shunt_min + 60] };
             let offsets_diff: Vec<i64> = if ties {
                 vec![0, shunt_dh, 2 * shunt_dh, shunt_min + shunt_dh]
